@@ -58,6 +58,34 @@ def check_sched(case, ctx: Ctx):
         ctx.label("eom_enabled")
     if w.aborted:
         ctx.label("aborted_partial_effect(C09)")
+        return
+    # a channel left in EOM mode keeps idling at the off-detuning of its LATEST setpoint for as
+    # long as the sequence (or an extension of it) lasts - in every sampled view
+    seq = w.seq
+    if seq.is_parametrized() or not seq._schedule:
+        return
+    from pulser.sampler import sample
+
+    left = {n: cs for n, cs in seq._schedule.items() if cs.eom_blocks and cs.eom_blocks[-1].tf is None}
+    if not left:
+        return
+    T = seq.get_duration()
+    try:
+        ext = sample(seq, extended_duration=T + 37)
+    except Exception as e:  # noqa: BLE001
+        ctx.fail("C15.det_off", f"sample_extended:{type(e).__name__}", str(e)[:200])
+        return
+    for n, cs in left.items():
+        offs = [float(np.asarray(b.detuning_off.as_array()).reshape(-1)[0]) for b in cs.eom_blocks]
+        end = cs.get_duration()
+        det = np.asarray(ext.channel_samples[n].det.as_array(), dtype=float)
+        tail = det[end:]
+        if len(offs) >= 2 and abs(offs[0] - offs[-1]) > 1e-9:
+            ctx.label("left_in_eom_mode_after_setpoint_change")
+        if tail.size and np.max(np.abs(tail - offs[-1])) > 1e-9:
+            ctx.fail("C15.det_off", "idle_tail_not_at_latest_off_detuning",
+                     f"{n}: extended samples after t={end} hold detuning {sorted(set(np.round(tail, 6)))[:3]}, "
+                     f"latest off-detuning {offs[-1]} (all blocks: {offs})")
 
 
 # ------------------------------------------------------------------ drift correction
